@@ -264,6 +264,23 @@ func c07Encode(b c07Batch) []byte {
 	return raw
 }
 
+// c07SpecTerm renders the batch as a lib/Kafka.v [kbatch] term (same field values as c07Encode).
+func c07SpecTerm(b c07Batch) string {
+	recs := make([]string, len(b.Recs))
+	maxTs := b.FirstTs
+	for i, r := range b.Recs {
+		hs := make([]string, len(r.Hdrs))
+		for j, h := range r.Hdrs {
+			hs[j] = "(" + cqStr(h.K) + ", " + cqOB(h.V) + ")"
+		}
+		recs[i] = fmt.Sprintf("mkKRec %s %s %s %s %s %s", cqZ(int64(r.Attr)), cqZ(r.TsDelta), cqZ(int64(r.OffDelta)), cqOB(r.Key), cqOB(r.Val), cqList(hs))
+		if ts := b.FirstTs + r.TsDelta; ts > maxTs {
+			maxTs = ts
+		}
+	}
+	return fmt.Sprintf("(mkKBatch %s 3 0 %s %s %s (-1) (-1) (-1) %s)", cqZ(b.Base), cqZ(int64(b.Recs[len(b.Recs)-1].OffDelta)), cqZ(b.FirstTs), cqZ(maxTs), cqList(recs))
+}
+
 func c07Want(cs c07Case) ([]vdRec, int64) {
 	var out []vdRec
 	var maxAbs int64
@@ -435,6 +452,9 @@ func TestVerifC07Storage(t *testing.T) {
 		coq = append(coq, fmt.Sprintf("CDecode KIdxStorage %s 0 %s", cqBytes(art.IndexBytes), idxObs))
 		jsons = append(jsons, string(canon))
 		for i, b := range cs.Batches {
+			// spec encoder (lib/Kafka.v) == kmsg, byte for byte
+			coq = append(coq, fmt.Sprintf("CSpec %s %s", c07SpecTerm(b), cqBytes(raws[i])))
+			jsons = append(jsons, string(canon))
 			sObs, pairs, serr := vdScan(raws[i][61:], len(b.Recs))
 			bad := serr != nil || len(pairs) != len(b.Recs)
 			for j := 0; !bad && j < len(pairs); j++ {
